@@ -1,2 +1,29 @@
 (* extra.ml — dispatch for the model entry points added after the path layer *)
-let dispatch (_ : string array) : string option = None
+open Model
+open Conv
+
+let dispatch (f : string array) : string option =
+  let a i = if i < Array.length f then arg_str f.(i) else [] in
+  let nat i = nat_of_int (int_of_string f.(i)) in
+  let z i = z_of_string f.(i) in
+  match f.(0) with
+  | "it_drop" -> Some (out_nlist (api_it_drop (nat 1) (z 2)))
+  | "it_drop_spec" -> Some (out_nlist (api_it_drop_spec (nat 1) (z 2)))
+  | "it_slice" -> Some (out_nlist (api_it_slice (nat 1) (z 2) (z 3)))
+  | "it_slice_spec" -> Some (out_nlist (api_it_slice_spec (nat 1) (z 2) (z 3)))
+  | "it_first" -> Some (match api_it_first (nat 1) with Some n -> out_num n | None -> "NONE")
+  | "it_first_result" -> Some (out_sum (api_it_first_result (nat 1)))
+  | "it_last_result" -> Some (out_sum (api_it_last_result (nat 1)))
+  | "it_single" -> Some (out_sum (api_it_single (nat 1)))
+  | "it_some" -> Some (out_bool (api_it_some (nat 1)))
+  | "it_consume" -> Some (out_nlist (api_it_consume (nat 1)))
+  | "str_size" -> Some (out_num (api_str_size (a 1)))
+  | "str_to_bool" -> Some (out_bool (api_str_to_bool (a 1)))
+  | "str_trim_suffix" -> Some (out_str (api_str_trim_suffix (a 1) (a 2)))
+  | "opt_has" ->
+      let o = if f.(1) = "none" then None else Some (n_of_int (int_of_string f.(1))) in
+      Some (out_bool (api_opt_has o (n_of_int (int_of_string f.(2)))))
+  | "take_while_ne" ->
+      let (t, r) = api_take_while_ne (n_of_int (int_of_string f.(1))) (a 2) in
+      Some ("T:" ^ hex_str t ^ "|" ^ hex_str r)
+  | _ -> None
